@@ -327,6 +327,23 @@ func (c *Ctx) Fail(oracle string, cas []string, detail, known string) {
 	c.mu.Unlock()
 }
 
+// Enough reports that the run already holds plenty of unexplained failures (not instances of listed findings) of one kind: a generating loop
+// may stop early instead of spending a deadline on each of the remaining cases (a wedged server costs one time-out per case).
+func (c *Ctx) Enough() bool {
+	c.mu.Lock()
+	defer c.mu.Unlock()
+	n := map[string]int{}
+	for _, f := range c.Res.Failures {
+		if f.Known == "" {
+			n[f.Oracle]++
+			if n[f.Oracle] >= 5 {
+				return true
+			}
+		}
+	}
+	return len(c.Res.Divergences) >= c.maxKeep && c.maxKeep > 0
+}
+
 // KnownStillFails records that an open known finding's stored witness still fails on this tree.
 func (c *Ctx) KnownStillFails(id string) {
 	c.mu.Lock()
